@@ -147,3 +147,11 @@ pub(crate) fn encode_scan_bounds<'a>(
 
     ScanRange::FullScan
 }
+
+/// Verification-only access to the planner's private key encoders (off unless the feature is enabled).
+#[cfg(feature = "kahflane_turdb_verif")]
+pub mod verif_hooks {
+    pub fn encode_int_to_arena(n: i64, buf: &mut bumpalo::collections::Vec<'_, u8>) { super::encode_int_to_arena(n, buf) }
+    pub fn encode_float_to_arena(f: f64, buf: &mut bumpalo::collections::Vec<'_, u8>) { super::encode_float_to_arena(f, buf) }
+    pub fn encode_text_to_arena(s: &str, buf: &mut bumpalo::collections::Vec<'_, u8>) { super::encode_text_to_arena(s, buf) }
+}
